@@ -3732,19 +3732,20 @@ def _fix_duplicate_regular_imports(source: str) -> str:
             )
             name = alias.name
 
-            import_nodes[asname].append(node)
+            # "import json as codec" is no duplicate of "import pickle as codec"
+            import_nodes[asname, name].append(node)
             import_aliases[name].add(asname)
 
     replacements = {}
     removals = set()
 
-    for asname, nodes in import_nodes.items():
+    for (asname, name), nodes in import_nodes.items():
         if len(nodes) > 1:
             for node in nodes[1:]:
                 new_aliases = {
                     (alias.name, alias.asname if alias.asname != alias.name else None)
                     for alias in node.names
-                    if (alias.asname or alias.name) != asname
+                    if ((alias.asname or alias.name), alias.name) != (asname, name)
                 }
                 new_names = [
                     ast.alias(name=name, asname=asname)
